@@ -38,6 +38,39 @@ func runC20(c *Ctx) {
 		for i := 0; i < named.NumMethods(); i++ {
 			m := named.Method(i)
 			if m.Name() == "Insert" || m.Name() == "Delete" {
+				// R20.9: a mutator changes the set it is called on: the receiver's map is replaced only where it was found to
+				// be nil (lazy initialisation) - a fresh map stored over a non-empty one drops what the set held
+				if fn := p.SSA.FuncValue(m); fn != nil && len(fn.Blocks) > 0 {
+					for _, b := range fn.Blocks {
+						for _, in := range b.Instrs {
+							st, ok := in.(*ssa.Store)
+							if !ok {
+								continue
+							}
+							fa, ok := st.Addr.(*ssa.FieldAddr)
+							if !ok || fa.X != ssa.Value(fn.Params[0]) {
+								continue
+							}
+							if _, isMap := st.Val.Type().Underlying().(*types.Map); !isMap {
+								continue
+							}
+							wasNil := false
+							for _, f := range core.FactsAt(b) {
+								if cmp, ok := f.AsCmp(); ok && cmp.Op == token.EQL {
+									if cst, isC := cmp.Y.(*ssa.Const); isC && cst.Value == nil {
+										if ld, isLd := cmp.X.(*ssa.UnOp); isLd {
+											if fa2, isFA := ld.X.(*ssa.FieldAddr); isFA && fa2.Field == fa.Field {
+												wasNil = true
+											}
+										}
+									}
+								}
+							}
+							c.R.Check(wasNil, "R20.9", spec[1]+"."+m.Name()+": the set's map is replaced only when it was nil", p.Pos(st.Pos()), "behind `map == nil`",
+								"a new map is stored into the receiver without a test that the old one was nil: the elements the set held are dropped")
+						}
+					}
+				}
 				// R20.6: a mutator applies to every element it is given: the loop over its variadic argument is left only
 				// when the elements are exhausted
 				if fn := p.SSA.FuncValue(m); fn != nil && len(fn.Blocks) > 0 && fn.Signature.Variadic() {
@@ -140,8 +173,40 @@ func checkNoSelfMerge(c *Ctx, p *core.Prog, fn *ssa.Function, typ string) {
 	c.R.Count("R20.7:merge loops", n)
 }
 
+// checkComparators: R20.8. An ordering function handed to sort compares the two elements directly: a comparison of their
+// difference with zero (a-b < 0) overflows for elements far apart and orders them the wrong way round.
+func checkComparators(c *Ctx, p *core.Prog, fn *ssa.Function, typ string) {
+	for _, f := range core.WithAnon(fn) {
+		if f == fn || f.Signature.Results().Len() != 1 || !isBool(f.Signature.Results().At(0).Type()) {
+			continue
+		}
+		for _, b := range f.Blocks {
+			for _, in := range b.Instrs {
+				bo, ok := in.(*ssa.BinOp)
+				if !ok {
+					continue
+				}
+				switch bo.Op {
+				case token.LSS, token.GTR, token.LEQ, token.GEQ:
+				default:
+					continue
+				}
+				for _, side := range []ssa.Value{bo.X, bo.Y} {
+					if d, isD := side.(*ssa.BinOp); isD && d.Op == token.SUB {
+						if bt, isB := d.Type().Underlying().(*types.Basic); isB && bt.Info()&types.IsInteger != 0 {
+							c.R.Fail("R20.8", typ+"."+fn.Name()+": elements are ordered by comparing them, not their difference", p.Pos(bo.Pos()),
+								"the ordering function compares a difference of two elements with a constant: the subtraction overflows for elements more than 2^63-1 apart and the order (and with it Sorted) is wrong")
+						}
+					}
+				}
+			}
+		}
+	}
+}
+
 func checkSetMethod(c *Ctx, p *core.Prog, fn *ssa.Function, typ string) {
 	checkNoSelfMerge(c, p, fn, typ)
+	checkComparators(c, p, fn, typ)
 	scope := []string{core.RootMod}
 	e := eng.NewExplorer(p, scope...)
 	ps := make([]eng.Prov, len(fn.Params))
